@@ -717,8 +717,45 @@ func c01Run(sp *c01Space) func(jc *JobCtx) *JobResult {
 	}
 }
 
+// c01LongJob: a few messages longer than the client's 4096-byte read buffer (a long tag section is legal: up to
+// 8191 bytes; a long trailing is what a lenient server may relay), parsed directly and sent through a connection.
+func c01LongJob() Job {
+	name := "c01/long-lines"
+	return Job{Name: name, Cost: 1, Run: func(jc *JobCtx) *JobResult {
+		e := NewEnum(name)
+		fb := newFailBook(e)
+		longVal := strings.Repeat("v;w x\\", 700) // 4900 bytes before escaping
+		longText := strings.Repeat("word ", 1000)
+		src := MSrc{Kind: "nuh", Nick: "n", User: "u", Host: "h.example"}
+		var batch []c01Item
+		for _, m := range []Msg{
+			{Tags: []MTag{{Key: "k", Val: longVal, Eq: true}}, Src: src, Verb: "PRIVMSG", Mid: []string{"#c"}, Sep: []int{1}, HasTrail: true, Trail: "short"},
+			{Src: src, Verb: "PRIVMSG", Mid: []string{"#c"}, Sep: []int{1}, HasTrail: true, Trail: longText},
+			{Tags: []MTag{{Key: "a", Val: "b", Eq: true}, {Key: "k", Val: longVal, Eq: true}}, Src: src, Verb: "notice", Mid: []string{"me"}, Sep: []int{1}, HasTrail: true, Trail: longText},
+			{Src: MSrc{Kind: "server", Name: "irc.example.org"}, Verb: "001", Mid: []string{"me", strings.Repeat("p", 4200)}, Sep: []int{1, 1}, HasTrail: true, Trail: "end"},
+			{Src: src, Verb: "PRIVMSG", Mid: []string{"#c"}, Sep: []int{1}, HasTrail: true, Trail: "after the long ones"},
+		} {
+			m := m
+			exp := m.Expect()
+			l, crash := SafeParse(exp.Raw)
+			e.Case(exp.Raw)
+			for _, f := range c01Judge(l, crash, exp) {
+				fb.Fail("parse-direct", f.Oracle, f.Class, Q(exp.Raw[:60]+"…"), f.Msg, nil)
+			}
+			if l != nil {
+				batch = append(batch, c01Item{m, exp.Raw, l})
+			}
+		}
+		c01CheckBatch(fb, batch)
+		e.Sample(map[string]interface{}{"long_lines": len(batch), "first_length": len(batch[0].Wire)})
+		fb.Flush()
+		return e.Done()
+	}}
+}
+
 func c01Jobs(tier string) []Job {
 	var jobs []Job
+	jobs = append(jobs, c01LongJob())
 	add := func(sp *c01Space) {
 		sp.phase = len(jobs) * 7
 		jobs = append(jobs, Job{Name: sp.name, Cost: sp.size() / 1000, Run: c01Run(sp)})
